@@ -3,7 +3,7 @@
     callbacks it made and a digest of its state after every operation). *)
 From Coq Require Import List ZArith Bool String.
 From V Require Import Gen.Params Lib.Hex Lib.Corr.
-From V Require Export ConnIDs.Model.
+From V Require Export ConnIDs.Model ConnIDs.Routing.
 Import ListNotations.
 Open Scope Z_scope.
 
@@ -21,13 +21,19 @@ Inductive gdigest :=
 
 Inductive gobs := GO (cls : Z) (evs : list gev) (d : gdigest).
 
+(** observation of one routing operation: flag, kind, reference, copies sent, then the
+    handlers map as (ID, kind code, reference) and the reset-token map *)
+Inductive robs := RO (flag : bool) (kind ref sent : Z) (routes : list (cid * Z * Z)) (toks : list (Z * Z)).
+
 Inductive case :=
 | MgrCase (initial : cid) (ops : list (mop * mobs))
-| GenCase (initial : cid) (clientDest : option cid) (len0 : bool) (ops : list (gop * gobs)).
+| GenCase (initial : cid) (clientDest : option cid) (len0 : bool) (ops : list (gop * gobs))
+| RouteCase (ops : list (rop * robs)).
 
 Inductive obs :=
 | MgrObs (l : list mobs)
-| GenObs (l : list gobs).
+| GenObs (l : list gobs)
+| RouteObs (l : list robs).
 
 (* ---- the model's observations ---- *)
 
@@ -59,10 +65,25 @@ Fixpoint gen_trace (ops : list gop) (g : gen) : list gobs :=
     GO (rclass_code cls) (new_events (g_log g) (g_log g')) (gdigest_of g') :: gen_trace r g'
   end.
 
+Definition hkind_code (h : hkind) : Z * Z :=
+  match h with HConn n => (1, n) | HLocal j => (2, j) | HRemote => (3, 0) end.
+
+Fixpoint rt_trace (ops : list rop) (s : rt) : list robs :=
+  match ops with
+  | [] => []
+  | o :: r =>
+    let (s', res) := rt_step o s in
+    RO (rr_flag res) (rr_kind res) (rr_ref res) (rr_sent res)
+       (map (fun e : cid * hkind => (fst e, fst (hkind_code (snd e)), snd (hkind_code (snd e)))) (rt_handlers s'))
+       (rt_tokens s')
+    :: rt_trace r s'
+  end.
+
 Definition model_obs (c : case) : obs :=
   match c with
   | MgrCase i ops => MgrObs (mgr_trace (map fst ops) (mgr_init i))
   | GenCase i cd l0 ops => GenObs (gen_trace (map fst ops) (gen_init i cd l0))
+  | RouteCase ops => RouteObs (rt_trace (map fst ops) rt_init)
   end.
 
 (* ---- comparison (event lists and map digests up to permutation) ---- *)
@@ -139,9 +160,19 @@ Definition gobs_eqb (a b : gobs) : bool :=
   | GO c1 e1 d1, GO c2 e2 d2 => (c1 =? c2) && perm_eqb gev_eqb e1 e2 && gdigest_eqb d1 d2
   end.
 
+Definition route_eqb (a b : cid * Z * Z) : bool :=
+  cid_eqb (fst (fst a)) (fst (fst b)) && (snd (fst a) =? snd (fst b)) && (snd a =? snd b).
+
+Definition robs_eqb (a b : robs) : bool :=
+  match a, b with
+  | RO f1 k1 r1 s1 h1 t1, RO f2 k2 r2 s2 h2 t2 =>
+    Bool.eqb f1 f2 && (k1 =? k2) && (r1 =? r2) && (s1 =? s2) && perm_eqb route_eqb h1 h2 && perm_eqb zz_eqb t1 t2
+  end.
+
 Definition check_case (c : case) : bool :=
   match c, model_obs c with
   | MgrCase _ ops, MgrObs l => list_eqb mobs_eqb (map snd ops) l
   | GenCase _ _ _ ops, GenObs l => list_eqb gobs_eqb (map snd ops) l
+  | RouteCase ops, RouteObs l => list_eqb robs_eqb (map snd ops) l
   | _, _ => false
   end.
